@@ -49,6 +49,35 @@ fn esc_events(s: &str, encodable: bool, w: &mut impl Write) -> usize {
         Ok((a, b)) => put(json!({"ev": "Strip", "in": inp, "out": cps(&a), "twice": cps(&b)})),
         Err(()) => put(panic_ev("strip", inp.clone())),
     }
+    {
+        use colours::Colourify;
+        let all: [(&str, fn(&str) -> String); 9] = [
+            ("black", |x| x.black()),
+            ("red", |x| x.red()),
+            ("light_green", |x| x.light_green()),
+            ("yellow", |x| x.yellow()),
+            ("blue", |x| x.blue()),
+            ("purple", |x| x.purple()),
+            ("light_blue", |x| x.light_blue()),
+            ("white", |x| x.white()),
+            ("dark_green", |x| x.dark_green()),
+        ];
+        // one helper per string (rotating), all nine for the short ones
+        let pick = s.chars().map(|c| c as usize).sum::<usize>() % 9;
+        for (i, (name, f)) in all.iter().enumerate() {
+            if i != pick && s.chars().count() > 2 {
+                continue;
+            }
+            match guard(|| {
+                let c = f(s);
+                let st = colours::strip(&c).to_string();
+                (c, st)
+            }) {
+                Ok((c, st)) => put(json!({"ev": "Colour", "name": name, "in": inp, "out": cps(&c), "stripped": cps(&st)})),
+                Err(()) => put(panic_ev("colourify", inp.clone())),
+            }
+        }
+    }
     if encodable {
         match guard(|| {
             let e = escaping::escape(s).to_string();
